@@ -3,8 +3,12 @@
    the fragments of banana.py translated into gen/TimersGen.v.  Time: Z milliseconds. *)
 From Coq Require Import ZArith List Bool.
 Import ListNotations.
+Require Import Verif.lib.Token Verif.lib.Recv Verif.lib.BananaRecv Verif.lib.TimersWire Verif.lib.TimersWireProofs.
+Require Import Verif.gen.RequestsGen Verif.lib.Requests Verif.lib.TimersCalls Verif.lib.TimersCallsProofs.
 Require Import Verif.lib.PyLite Verif.gen.BananaGen Verif.gen.TimersGen Verif.lib.Timers Verif.lib.TimersProofs.
+Require Import Verif.lib.TimersRound Verif.lib.TimersRoundProofs.
 Local Open Scope Z_scope.
+(* (unqualified run / init / step / st are those of lib/Timers.v; the request table's and the byte receiver's are qualified) *)
 
 (* "With an idle-disconnect time T configured, a connection on which no byte arrives for longer than T
    is torn down within 2T (plus scheduling slack)".  Exact bound: after any history `pre`, if nothing
@@ -106,11 +110,188 @@ Theorem C15_ping_number_limit : forall n, 2 ^ 448 <= n -> exists bs, sendPING n 
 Proof. exact ping_number_too_big. Qed.
 Print Assumptions C15_ping_number_limit.
 
-(* ... in EVERY receiver state: with a discard counter d (the rest of a rejected / aborted sequence is being
-   skipped) and any pattern `bad` of Violations, each PING is still answered by one PONG with its number, in
-   order, and what the object grammar sees does not depend on the PING/PONG tokens *)
-Theorem C15_ping_pong_any_state : forall bad toks d i,
-  rx_disc bad d i toks =
-  (fst (rx_disc bad d i (strip toks)), map fst (filter (fun t => snd t =? tok_PING) toks)).
-Proof. intros; apply rx_disc_spec. Qed.
-Print Assumptions C15_ping_pong_any_state.
+(* (PING/PONG in every receiver state -- discarding, index phase, any unslicer stack: C15_ping_any_context and
+   C15_ping_pong_bytes below, on C07's receiver model, which has the real discardCount / inOpen / checkToken logic) *)
+
+(* ============================== round 5: the sentences end to end ============================== *)
+
+(* "... is torn down within 2T (plus scheduling slack) AND ITS PENDING CALLS FAIL WITH DeadReferenceError": one Broker =
+   timers (lib/Timers.v) + pending-request table and eventual queue (lib/Requests.v, C03) glued by the translated chain
+   disconnectTimerFired -> connectionTimedOut -> shutdown(Failure(ConnectionLost)) -> finish ; loseConnection.
+   After ANY history of a connected Broker (calls, answers, arrivals, reactor turns, queue turns), if the peer goes silent
+   and the reactor is at most d late, then once the clock has passed now + 2T + EPSILON + d: connectionTimedOut ran and
+   transport.loseConnection() was called no later than that; the Broker is disconnected; and when the eventual-send queue has
+   run, every callRemote that was pending when the silence began has fired exactly once, with DeadReferenceError, and no
+   request is left in the table. *)
+Theorem C15_idle_calls_fail_with_DeadReferenceError : forall c tc T d pre post h cl,
+  cT c = Some T -> 0 <= T -> 0 <= d ->
+  let s := broker_run c tc pre in
+  sorted_from tc (tproj pre) -> no_close (tproj pre) -> disconnected (rq s) = false ->
+  Forall is_btick post -> sorted_from (now (tm s)) (tproj post) -> punctual c d (tm s) (tproj post) ->
+  let s' := broker_run_from c s post in
+  now (tm s) + 2 * T + eps_ms + d < now (tm s') ->
+  Requests.get (rq s) h = Some cl -> c_twoway cl = true -> c_fires cl = [] ->
+  (exists x, In x (lose s') /\ In x (torn (tm s')) /\ x <= now (tm s) + 2 * T + eps_ms + d) /\
+  disconnected (rq s') = true /\
+  table (drained s') = [] /\
+  exists cl', Requests.get (drained s') h = Some cl' /\ c_fires cl' = [ODeadRef].
+Proof. exact idle_calls_fail_with_DeadReferenceError. Qed.
+Print Assumptions C15_idle_calls_fail_with_DeadReferenceError.
+
+(* the timer layer of that Broker IS the model of the theorems above (so they all apply to it) ... *)
+Theorem C15_broker_timers : forall c evs s, tm (broker_run_from c s evs) = run c (tm s) (tproj evs).
+Proof. exact tm_run. Qed.
+Print Assumptions C15_broker_timers.
+
+(* ... and a teardown drops the transport at once: in every history loseConnection() has been called exactly at the
+   times connectionTimedOut was called *)
+Theorem C15_teardown_loses_connection : forall c t0 evs, lose (broker_run c t0 evs) = torn (tm (broker_run c t0 evs)).
+Proof. exact lose_is_torn. Qed.
+Print Assumptions C15_teardown_loses_connection.
+
+(* "All timers are cancelled when the connection closes", every closing path: connectionLost in ANY state -- connectionMade
+   never ran (negotiation failed first), already torn down by the timer, finish() already called, a second connectionLost --
+   leaves no timer pending, none is ever re-armed, no PING / teardown / loseConnection follows *)
+Theorem C15_cancel_from_any_state : forall c s t post,
+  let s' := run c s (Close t :: post) in
+  ka s' = None /\ dc s' = None /\ pings s' = pings s /\ torn s' = torn s /\ closed s' = true.
+Proof. exact cancel_from_any_state. Qed.
+Print Assumptions C15_cancel_from_any_state.
+
+Theorem C15_connectionLost_cancels_timers : forall c s t r post,
+  let s' := broker_run_from c s (BLost t r :: post) in
+  ka (tm s') = None /\ dc (tm s') = None /\ pings (tm s') = pings (tm s) /\ torn (tm s') = torn (tm s) /\ lose s' = lose s.
+Proof. exact lost_cancels_timers. Qed.
+Print Assumptions C15_connectionLost_cancels_timers.
+
+(* Broker.finish called twice (teardown then connectionLost, shutdown then connectionLost, ...): the second call changes nothing *)
+Theorem C15_finish_twice : forall q r r', Requests.step (Requests.step q (Finish r)) (Finish r') = Requests.step q (Finish r).
+Proof. exact finish_twice_changes_nothing. Qed.
+Print Assumptions C15_finish_twice.
+
+(* the timer teardown itself: the disconnect timer is gone for good ... *)
+Theorem C15_no_disconnect_timer_after_teardown : forall c tc evs, sorted_from tc evs ->
+  torn (run c (init c tc) evs) <> [] -> dc (run c (init c tc) evs) = None.
+Proof. exact no_disconnect_timer_after_teardown. Qed.
+Print Assumptions C15_no_disconnect_timer_after_teardown.
+
+(* ... but the sentence is FALSE if "closes" is read as "is torn down by the timer": Broker.shutdown does not cancel the
+   keepalive timer; until the transport delivers connectionLost it stays armed (and keeps writing PINGs, see
+   TimersProofs.ex_ping_after_teardown, replayed on the real Broker by the correspondence) *)
+Theorem C15_keepalive_survives_teardown : forall c tc K evs, cK c = Some K -> sorted_from tc evs -> no_close evs ->
+  exists e, ka (run c (init c tc) evs) = Some e.
+Proof. exact keepalive_survives_teardown. Qed.
+Print Assumptions C15_keepalive_survives_teardown.
+
+(* the order in which the reactor runs keepaliveTimerFired and disconnectTimerFired inside one turn is immaterial *)
+Theorem C15_callback_order_immaterial : forall c evs s, fold_left (step_dc_first c) evs s = run c s evs.
+Proof. exact callback_order_immaterial. Qed.
+Print Assumptions C15_callback_order_immaterial.
+
+(* "every ping is answered by a pong carrying the same number, and pings/pongs may appear between any two tokens without
+   disturbing the message being decoded" -- BYTE level, every chunking, every receiver state.
+   `items` is what the peer writes: stretches of arbitrary bytes and, in between, the bytes of the (translated) sendPING n /
+   sendPONG n.  If every keepalive token sits between two tokens of the ordinary stream (`placed`: nothing buffered, no
+   rejected body being skipped, connection not abandoned -- whatever the discard count, the unslicer stack, the index phase)
+   and its number fits a header, then for EVERY way of cutting the byte stream into chunks the byte-level receiver of C07
+     (1) behaves as `expect` says: the ordinary bytes are processed from the same states, each Ping n adds exactly EPong n
+         at its position, each Pong n adds nothing;
+     (2) the events not caused by the keepalive tokens and the final receiver state are exactly those of the stream
+         WITHOUT the keepalive tokens, for every chunking of that one too;
+     (3) the PONGs answer the PINGs one for one, same numbers, same order. *)
+Theorem C15_ping_pong_bytes : forall c items bs cs,
+  placed (Recv.init c) items = true -> wire items = Ok bs -> concat cs = bs ->
+  let '(s', es) := expect (Recv.init c) items in
+  bfeed_all (Recv.init c) cs = (s', map snd es) /\
+  (forall cs', concat cs' = plain items -> bfeed_all (Recv.init c) cs' = (s', map snd (filter (fun e => negb (fst e)) es))) /\
+  map snd (filter fst es) = map EPong (ping_numbers items).
+Proof. exact woven_any_chunking. Qed.
+Print Assumptions C15_ping_pong_bytes.
+
+(* the bytes of sendPING n, n < 2^448, fed to a receiver that is between two tokens: exactly one PONG n, state unchanged;
+   the bytes of sendPONG n: nothing at all *)
+Theorem C15_ping_bytes_answered : forall s n bs, boundary s = true -> 0 <= n < 2 ^ 448 ->
+  (sendPING n [] = Ok bs -> bfeed s bs = (s, [EPong n])) /\ (sendPONG n [] = Ok bs -> bfeed s bs = (s, [])).
+Proof. exact ping_bytes_answered. Qed.
+Print Assumptions C15_ping_bytes_answered.
+
+(* token level, EVERY receiver context (any discardCount, inside or outside an OPEN's index phase, any unslicer stack, any
+   schema): PING n is answered by PONG n and changes nothing; PONG n does nothing *)
+(* ... and that is what the CURRENT SOURCE's handleData does: the generator's facts about it (PING/PONG exempt from the
+   schema check, `sendPONG(header); continue` / `continue` in the top-level dispatch chain) give exactly the model's step *)
+Theorem C15_ping_clause_is_the_sources : forall c n,
+  keepalive_clause_of_source c tok_PING n = Some (step_nobody_hr c tok_PING n) /\
+  keepalive_clause_of_source c tok_PONG n = Some (step_nobody_hr c tok_PONG n).
+Proof. exact source_shape_is_model. Qed.
+Print Assumptions C15_ping_clause_is_the_sources.
+
+Theorem C15_ping_any_context : forall c n body,
+  tok_apply c tok_PING n body = Ok' c [EPong n] /\ tok_apply c tok_PONG n body = Ok' c [].
+Proof. exact ping_any_context. Qed.
+Print Assumptions C15_ping_any_context.
+
+(* ============================== round 5: robustness to floating-point rounding ============================== *)
+
+(* The code computes with IEEE doubles: `time.time() - self.dataLastReceivedAt`, `self.<x>Timeout + EPSILON`, and the
+   `seconds() + delay` of reactor.callLater are each rounded.  gen/TimersGen.v translates the callbacks with these `+` / `-`
+   as parameters (`<name>_g add sub eps`; the theorems above are the instance Z.add, Z.sub, eps_ms:
+   TimersRoundProofs.exact_instance); runR / initR is the same machine over ARBITRARY add / sub / eps.  For EVERY add, sub
+   that are within delta of the exact result (doubles: take as time unit a power of two so small that every double in play is
+   an integer -- the theorems are unit-free --, delta = half an ulp of the largest time, about 1.2e-7 s for time.time() today):
+   the teardown bound degrades by exactly 3*delta, ... *)
+Theorem C15_idle_torn_down_rounded : forall add sub eps delta,
+  0 <= delta -> 0 <= eps -> within delta add Z.add -> within delta sub Z.sub ->
+  forall c tc T d pre post,
+  cT c = Some T -> 0 <= T -> 0 <= d ->
+  sorted_from tc pre -> no_close pre ->
+  let s := runR add sub eps c (initR add sub eps c tc) pre in
+  only_ticks post -> sorted_from (now s) post -> punctualR add sub eps c d s post ->
+  let s' := runR add sub eps c s post in
+  now s + 2 * T + eps + 3 * delta + d < now s' ->
+  exists x, In x (torn s') /\ x <= now s + 2 * T + eps + 3 * delta + d.
+Proof. exact idle_torn_down_rounded. Qed.
+Print Assumptions C15_idle_torn_down_rounded.
+
+(* ... a byte at least every T - delta keeps the connection, a teardown means the latest arrival was more than T - delta old, ... *)
+Theorem C15_active_kept_rounded : forall add sub eps delta,
+  0 <= delta -> 0 <= eps -> within delta add Z.add -> within delta sub Z.sub ->
+  forall c tc T evs, cT c = Some T ->
+  (forall pre t post, evs = pre ++ Tick t :: post -> t - last_arrival tc false pre <= T - delta) ->
+  torn (runR add sub eps c (initR add sub eps c tc) evs) = [].
+Proof. exact active_kept_rounded. Qed.
+Print Assumptions C15_active_kept_rounded.
+
+Theorem C15_torn_only_when_idle_rounded : forall add sub eps delta,
+  0 <= delta -> 0 <= eps -> within delta add Z.add -> within delta sub Z.sub ->
+  forall c tc T evs x, cT c = Some T ->
+  In x (torn (runR add sub eps c (initR add sub eps c tc) evs)) ->
+  exists pre post, evs = pre ++ Tick x :: post /\ T - delta < x - last_arrival tc false pre.
+Proof. exact torn_only_when_idle_rounded. Qed.
+Print Assumptions C15_torn_only_when_idle_rounded.
+
+(* ... and the same for the keepalive PING *)
+Theorem C15_ping_within_rounded : forall add sub eps delta,
+  0 <= delta -> 0 <= eps -> within delta add Z.add -> within delta sub Z.sub ->
+  forall c tc K d pre post,
+  cK c = Some K -> 0 <= K -> 0 <= d ->
+  sorted_from tc pre -> no_close pre ->
+  let s := runR add sub eps c (initR add sub eps c tc) pre in
+  only_ticks post -> sorted_from (now s) post -> punctualR add sub eps c d s post ->
+  let s' := runR add sub eps c s post in
+  now s + 2 * K + eps + 3 * delta + d < now s' ->
+  exists new p, pings s' = new ++ pings s /\ In p new /\ now s <= p <= now s + 2 * K + eps + 3 * delta + d.
+Proof. exact ping_within_rounded. Qed.
+Print Assumptions C15_ping_within_rounded.
+
+Theorem C15_ping_only_when_idle_rounded : forall add sub eps delta,
+  0 <= delta -> 0 <= eps -> within delta add Z.add -> within delta sub Z.sub ->
+  forall c tc K evs x, cK c = Some K ->
+  In x (pings (runR add sub eps c (initR add sub eps c tc) evs)) ->
+  exists pre post, evs = pre ++ Tick x :: post /\ K - delta < x - last_arrival tc false pre.
+Proof. exact ping_only_when_idle_rounded. Qed.
+Print Assumptions C15_ping_only_when_idle_rounded.
+
+(* the rounded machine with exact arithmetic is the machine of the exact theorems *)
+Theorem C15_exact_is_an_instance : forall c evs s, runR Z.add Z.sub eps_ms c s evs = run c s evs.
+Proof. exact exact_instance. Qed.
+Print Assumptions C15_exact_is_an_instance.
